@@ -192,6 +192,8 @@ class Executor:
                 raise Unsupported(f"parameter {p} of {fi.qualname} has no declared type")
         frame = Frame(fi, dict(args))
         st.frames.append(frame)
+        for cname, cval in getattr(ct, "closure", {}).items():  # free variables of a nested function under contract (source.py: Class.method.inner)
+            frame.env[cname] = cval.fresh(st, cname) if isinstance(cval, T) else cval
         for p in params:
             if args[p] is None and p in defaults and p not in ct.params:
                 frame.env[p] = args[p] = self.ev(defaults[p])
@@ -1136,7 +1138,7 @@ class Executor:
 
     def ev_List(self, node):
         if any(isinstance(e, ast.Starred) for e in node.elts):
-            r = self.models._plug("list_display", self, node)  # [x, *xs] (opt-in: plug_c16)
+            r = self.models._plug("starred_list_display", self, node)  # [x, *xs] (opt-in: plug_c16)
             if r is not NotImplemented:
                 return r
         items = [self.ev(e) for e in node.elts]
